@@ -5,6 +5,8 @@ package props
 // DESIGN.md §2.2.  Nothing here reads the wall clock or an RNG.
 
 import (
+	_ "time/tzdata" // the zone database comes with the binary
+
 	"encoding/json"
 	"fmt"
 	servertypes "github.com/cosmos/cosmos-sdk/server/types"
@@ -156,6 +158,29 @@ func newApp(db dbm.DB) (*c4eapp.App, appparams.EncodingConfig) { return newAppWi
 type NodeFlags struct {
 	SkipGenesisInvariants bool `json:"skip_genesis_invariants,omitempty"`
 	InvCheckPeriod        uint `json:"inv_check_period,omitempty"`
+	// TimeZone is the machine's local time zone (TZ / /etc/localtime), "" = UTC
+	TimeZone string `json:"time_zone,omitempty"`
+}
+
+// NodeTimeZones are local time zones a node's machine may be set to.
+var NodeTimeZones = []string{"", "Europe/Warsaw", "America/Los_Angeles", "Pacific/Kiritimati", "Asia/Kolkata", "Australia/Lord_Howe"}
+
+// InTimeZone runs f with the process' local time zone set to the named one ("" = UTC) and restores
+// the previous one afterwards.  Cases run one after another in a test process, nothing else reads
+// time.Local meanwhile.
+func InTimeZone(name string, f func()) {
+	loc := time.UTC
+	if name != "" {
+		l, err := time.LoadLocation(name)
+		if err != nil {
+			panic(err)
+		}
+		loc = l
+	}
+	old := time.Local
+	time.Local = loc
+	defer func() { time.Local = old }()
+	f()
 }
 
 type nodeAppOptions map[string]interface{}
